@@ -57,7 +57,7 @@ def cases(draw, big):
     ch = st.lists(st.integers(0, 40), max_size=draw(st.sampled_from([0, 30, 400])))
     off = draw(st.integers(0, size + 2))
     ln = draw(st.integers(0, size + 2))
-    return {"hsalt": draw(st.integers(0, 15)), "threads": draw(st.sampled_from(["sync", "async"])), "k": k, "n": n, "happy": happy, "seg": seg, "size": size, "servers": nservers, "fill": draw(st.integers(0, 5)),
+    return {"hsalt": draw(st.integers(0, 15)), "threads": draw(st.sampled_from(["sync", "async", "held"])), "k": k, "n": n, "happy": happy, "seg": seg, "size": size, "servers": nservers, "fill": draw(st.integers(0, 5)),
             "convergent": draw(st.booleans()), "guess": draw(st.sampled_from([None, None, 16, 100, 1000])), "up": draw(ch), "down": draw(ch), "read": [off, ln]}
 
 
@@ -67,7 +67,7 @@ def run_shard(spec, ctx):
 
 def run_case(case, ctx):
     from vf import boot as _boot
-    _boot.set_thread_mode(case.get("threads") == "async")      # defer_to_thread answered in a later reactor turn (as in production) or synchronously
+    _boot.set_thread_mode(case.get("threads") or "sync")      # defer_to_thread answered in a later reactor turn (as in production) or synchronously
     from allmydata.immutable.upload import Data
     from allmydata import uri
     k, n, happy, seg, size = case["k"], case["n"], case["happy"], case["seg"], case["size"]
